@@ -168,6 +168,223 @@ impl Gen {
     }
 }
 
+
+/// knobs of the generic history generator
+#[derive(Clone)]
+pub struct Knobs {
+    pub callers: (usize, usize),
+    pub ops: (usize, usize),
+    pub keys: (i64, i64),
+    pub shared_keys: bool,
+    pub max_weights: Vec<i64>,
+    pub qsizes: Vec<usize>,
+    pub pools: Vec<usize>,
+    pub buffers: Vec<usize>,
+    /// percentages (put, pou, del, get, mget, weight, stats); the rest is "get"
+    pub mixw: [u32; 7],
+    pub ttl_pct: u32,
+    pub weight_pct: u32,
+    pub pou_ttl_pct: u32,
+    pub await_pcts: Vec<u32>,
+    pub advance_pcts: Vec<u32>,
+    pub max_advances: Vec<i64>,
+    pub sweeper_pcts: Vec<u32>,
+    pub stall_sweeper_pct: u32,
+    pub stall_consumer_pct: u32,
+    pub sticky: Vec<u32>,
+    pub shutdown_pct: u32,
+    pub heavy_pct: u32,
+    pub freq_profile: bool,
+    pub final_reads: bool,
+    pub ttls: Vec<i64>,
+}
+
+impl Default for Knobs {
+    fn default() -> Self {
+        Knobs {
+            callers: (1, 3), ops: (10, 40), keys: (3, 8), shared_keys: true,
+            max_weights: vec![4, 6, 10, 12, 30, 200], qsizes: vec![1, 2, 4, 16], pools: vec![1, 1, 2, 3], buffers: vec![1, 2, 4],
+            mixw: [28, 22, 12, 26, 6, 3, 3], ttl_pct: 40, weight_pct: 60, pou_ttl_pct: 50,
+            await_pcts: vec![0, 30, 70, 100], advance_pcts: vec![0, 3, 8, 15], max_advances: vec![1, 2, 4, 9],
+            sweeper_pcts: vec![5, 20, 60], stall_sweeper_pct: 15, stall_consumer_pct: 20, sticky: vec![0, 0, 50, 85],
+            shutdown_pct: 0, heavy_pct: 5, freq_profile: false, final_reads: false, ttls: vec![1, 2, 3, 5, 8, 13],
+        }
+    }
+}
+
+impl Gen {
+    fn range(&mut self, r: (usize, usize)) -> usize { self.rng.gen_range(r.0..=r.1) }
+
+    pub fn history(&mut self, name: &str, kn: &Knobs) -> Scenario {
+        let max_weight = self.pick(&kn.max_weights);
+        let cfg = Cfg {
+            max_weight,
+            counters: self.pick(&[1, 2, 3, 10, 64, 100]),
+            capacity: 16,
+            shards: self.pick(&[2, 2, 4, 8]),
+            qsize: self.pick(&kn.qsizes),
+            pool: self.pick(&kn.pools),
+            buffer: self.pick(&kn.buffers),
+            hash: self.pick(&["id", "id", "const"]).to_string(),
+            clock0: 1000 + self.rng.gen_range(0..8),
+            wf_base: 1,
+            wf_mod: self.pick(&[1, 2, 3]),
+            wf_ttl: self.pick(&[0, 1, 2]),
+            default_weight_fn: false,
+        };
+        let callers = self.range(kn.callers);
+        let key_count = self.rng.gen_range(kn.keys.0..=kn.keys.1);
+        let await_pct = self.pick(&kn.await_pcts);
+        let mut programs = BTreeMap::new();
+        let total: u32 = kn.mixw.iter().sum();
+        for caller in 0..callers {
+            let role = format!("c{}", caller);
+            let keys: Vec<i64> = if kn.shared_keys { (0..key_count).collect() } else { (0..key_count).map(|key| key + 20 * caller as i64).collect() };
+            let mut program: Vec<Op> = Vec::new();
+            let base = 1000 * (caller as i64 + 1);
+            let ops = self.range(kn.ops);
+            let mut shutdown_at = if self.rng.gen_range(0..100) < kn.shutdown_pct { Some(self.rng.gen_range(ops / 3..ops.max(1))) } else { None };
+            while program.len() < ops {
+                if let Some(position) = shutdown_at {
+                    if program.len() >= position {
+                        let mut o = op("shutdown");
+                        o.id = base + program.len() as i64 + 1;
+                        program.push(o);
+                        shutdown_at = None;
+                        continue;
+                    }
+                }
+                let key = *keys.choose(&mut self.rng).unwrap();
+                let mut roll = self.rng.gen_range(0..total.max(1));
+                let mut kind = 3;
+                for (index, weight) in kn.mixw.iter().enumerate() {
+                    if roll < *weight { kind = index; break; }
+                    roll -= *weight;
+                }
+                let mut next = match kind {
+                    0 => {
+                        let mut o = op("put");
+                        o.k = key; o.v = self.value();
+                        if self.rng.gen_range(0..100) < kn.weight_pct {
+                            o.w = if self.rng.gen_range(0..100) < kn.heavy_pct { cfg.max_weight + self.rng.gen_range(1..3) } else { self.rng.gen_range(1..=cfg.max_weight.min(9)) };
+                        }
+                        if self.rng.gen_range(0..100) < kn.ttl_pct { o.ttl = self.pick(&kn.ttls); }
+                        o
+                    }
+                    1 => {
+                        let mut o = op("pou");
+                        o.k = key;
+                        loop {
+                            o.v = -1; o.w = -1; o.ttl = -1; o.rm = false;
+                            if self.rng.gen_bool(0.6) { o.v = self.value(); }
+                            if self.rng.gen_range(0..100) < kn.weight_pct / 2 { o.w = self.rng.gen_range(1..=cfg.max_weight.min(9)); }
+                            if self.rng.gen_range(0..100) < kn.pou_ttl_pct { if self.rng.gen_bool(0.65) { o.ttl = self.pick(&kn.ttls); } else { o.rm = true; } }
+                            if o.v >= 0 || o.w >= 0 || o.ttl >= 0 || o.rm { break; }
+                        }
+                        o
+                    }
+                    2 => { let mut o = op("del"); o.k = key; o }
+                    3 => self.get(key),
+                    4 => self.mget(&keys),
+                    5 => op("weight"),
+                    _ => op("stats"),
+                };
+                next.id = base + program.len() as i64 + 1;
+                let is_write = matches!(next.op.as_str(), "put" | "pou" | "del");
+                let id = next.id;
+                program.push(next);
+                if is_write && self.rng.gen_range(0..100) < await_pct {
+                    let mut wait = op("await");
+                    wait.r#ref = id;
+                    wait.id = base + program.len() as i64 + 1;
+                    program.push(wait);
+                }
+            }
+            if kn.final_reads {
+                // await everything still pending, then read every key and the statistics
+                let pending: Vec<i64> = program.iter().filter(|o| matches!(o.op.as_str(), "put" | "pou" | "del")).map(|o| o.id).collect();
+                let awaited: Vec<i64> = program.iter().filter(|o| o.op == "await").map(|o| o.r#ref).collect();
+                for id in pending {
+                    if !awaited.contains(&id) {
+                        let mut wait = op("await");
+                        wait.r#ref = id;
+                        wait.id = base + program.len() as i64 + 1;
+                        program.push(wait);
+                    }
+                }
+                for key in &keys {
+                    let mut o = self.get(*key);
+                    o.id = base + program.len() as i64 + 1;
+                    program.push(o);
+                }
+                for kind in ["weight", "stats"] {
+                    let mut o = op(kind);
+                    o.id = base + program.len() as i64 + 1;
+                    program.push(o);
+                }
+            }
+            programs.insert(role, program);
+        }
+        let freq = if kn.freq_profile {
+            (0..key_count).map(|key| (key, self.pick(&[0usize, 0, 1, 2, 3, 7, 20]))).collect()
+        } else { Vec::new() };
+        Scenario {
+            name: name.to_string(),
+            cfg,
+            programs,
+            yield_sites: sites(SYS_SITES),
+            schedule: Schedule::Random {
+                seed: self.rng.gen(),
+                stall_sweeper: self.rng.gen_range(0..100) < kn.stall_sweeper_pct,
+                stall_consumer: self.rng.gen_range(0..100) < kn.stall_consumer_pct,
+                advance_pct: self.pick(&kn.advance_pcts),
+                max_advance: self.pick(&kn.max_advances),
+                sweeper_pct: self.pick(&kn.sweeper_pcts),
+                sticky_pct: self.pick(&kn.sticky),
+            },
+            freq,
+            max_steps: 0,
+        }
+    }
+}
+
+pub fn knobs(profile: &str) -> Knobs {
+    let d = Knobs::default();
+    match profile {
+        // time to live: puts with TTL, upserts adding / changing / removing it, the clock moving in small steps, eager sweeper
+        "ttl" => Knobs {
+            callers: (1, 2), ops: (20, 50), keys: (2, 5), max_weights: vec![40, 200, 400], mixw: [30, 30, 8, 28, 2, 1, 1],
+            ttl_pct: 80, pou_ttl_pct: 85, await_pcts: vec![70, 100, 100], advance_pcts: vec![15, 25, 35], max_advances: vec![1, 1, 2, 3],
+            sweeper_pcts: vec![60, 100], stall_sweeper_pct: 10, ttls: vec![1, 2, 3, 4, 6], heavy_pct: 0, ..d },
+        // memory pressure: small caches, many puts, frequency profiles
+        "pressure" => Knobs {
+            callers: (1, 3), ops: (20, 50), keys: (5, 12), max_weights: vec![4, 6, 9, 10, 15], mixw: [50, 12, 6, 26, 3, 3, 0],
+            ttl_pct: 15, weight_pct: 85, await_pcts: vec![30, 70, 100], advance_pcts: vec![0, 3], freq_profile: true, heavy_pct: 8, ..d },
+        // sequential use of every key by one caller, no memory pressure (C03)
+        "seq" => Knobs {
+            callers: (1, 3), ops: (20, 45), keys: (2, 4), shared_keys: false, max_weights: vec![400, 1000], mixw: [28, 26, 10, 34, 2, 0, 0],
+            ttl_pct: 50, await_pcts: vec![100], advance_pcts: vec![5, 15, 25], max_advances: vec![1, 2, 3], sweeper_pcts: vec![40, 100],
+            heavy_pct: 0, ttls: vec![2, 3, 5, 8], ..d },
+        // unawaited bursts on shared keys through tiny queues (C05, C11, C04)
+        "burst" => Knobs {
+            callers: (1, 3), ops: (12, 30), keys: (1, 3), qsizes: vec![1, 1, 2, 3], mixw: [42, 14, 24, 18, 2, 0, 0], ttl_pct: 15,
+            await_pcts: vec![0, 0, 20], advance_pcts: vec![0, 3], final_reads: true, max_weights: vec![6, 10, 50], ..d },
+        // shutdown in the middle of traffic (C13)
+        "shutdown" => Knobs {
+            callers: (2, 3), ops: (8, 24), keys: (2, 4), qsizes: vec![1, 1, 2, 4], shutdown_pct: 70, await_pcts: vec![0, 30, 70],
+            advance_pcts: vec![0, 3], ..d },
+        // read-heavy traffic through small buffers (C15, C02)
+        "reads" => Knobs {
+            callers: (1, 4), ops: (25, 60), keys: (2, 6), pools: vec![1, 1, 2, 3], buffers: vec![1, 1, 2, 3], mixw: [14, 8, 5, 55, 16, 1, 1],
+            ttl_pct: 20, stall_consumer_pct: 50, await_pcts: vec![50, 100], max_weights: vec![10, 50, 200], ..d },
+        // statistics (C16): quiescent observation at the end, all-hit and all-miss mixes, weight changes
+        "stats" => Knobs {
+            callers: (1, 2), ops: (15, 40), keys: (2, 6), mixw: [22, 22, 8, 34, 6, 2, 6], final_reads: true, await_pcts: vec![50, 100],
+            max_weights: vec![6, 10, 30, 200], ..d },
+        _ => d,
+    }
+}
+
 pub fn generate(profile: &str, seed: u64, count: usize) -> Vec<Scenario> {
     let mut gen = Gen::new(seed);
     let mut scenarios = Vec::new();
@@ -184,7 +401,34 @@ pub fn generate(profile: &str, seed: u64, count: usize) -> Vec<Scenario> {
                 let fine = gen.rng.gen_bool(0.7);
                 gen.mix(&name, callers, ops, pressure, shared, await_pct, shutdown, fine)
             }
-            _ => panic!("unknown profile {}", profile),
+            "allhit" => {
+                // a handful of keys put once, then only reads of them: no miss at all
+                let mut kn = knobs("stats");
+                kn.mixw = [0, 0, 0, 90, 8, 0, 2];
+                kn.final_reads = true;
+                kn.callers = (1, 1);
+                let mut sc = gen.history(&name, &kn);
+                sc.cfg.max_weight = 1000;
+                for (_, program) in sc.programs.iter_mut() {
+                    let base = program.first().map(|o| o.id - 1).unwrap_or(1000);
+                    let mut prefix: Vec<Op> = Vec::new();
+                    let keys: Vec<i64> = program.iter().flat_map(|o| if o.op == "get" { vec![o.k] } else { o.ks.clone() }).collect();
+                    let mut seen = std::collections::BTreeSet::new();
+                    for key in keys { if seen.insert(key) {
+                        let mut put = gen.put(&sc.cfg, key); put.ttl = -1; put.w = 1;
+                        prefix.push(put);
+                    } }
+                    let mut all: Vec<Op> = Vec::new();
+                    for put in prefix { let mut wait = Op { op: "await".to_string(), k: -1, v: -1, w: -1, ttl: -1, ..Default::default() }; all.push(put); all.push(wait.clone()); let _ = &mut wait; }
+                    all.extend(program.drain(..));
+                    for (index, o) in all.iter_mut().enumerate() { o.id = base + index as i64 + 1; }
+                    for index in 0..all.len() { if all[index].op == "await" && all[index].r#ref == 0 { all[index].r#ref = all[index - 1].id; } }
+                    *program = all;
+                }
+                // only caller c0 of a shared-key scenario may put: drop duplicate puts of other callers (they would be rejected, which is fine)
+                sc
+            }
+            other => gen.history(&name, &knobs(other)),
         };
         scenarios.push(scenario);
     }
